@@ -40,7 +40,7 @@ CHECKS = {
          'Every score returned on the complete v2 space, all v3 classes and all v4 classes (canonical and overridden representations) is finite, exactly k/10, in range, accepted by Rating; no panic.',
          'Representation independence (C10) carries the result to the remaining objects.', '5 C11, 4 E3'),
  'C12': ('scorespace', 'exhaustive exploration of the one-metric neighbourhood graph on the implementation\'s own score tables',
-         'For every effective class and every strictly more severe value of every metric the score does not decrease (v4 Score; v3.1 three scores; v3.0 and v2 base and temporal). Complete on effective classes; model independent.',
+         'For every effective class and every strictly more severe value of every metric the score does not decrease (v4 Score; v3.1 three scores; v3.0 and v2 base and temporal). Complete on effective classes; plus every step from a Modified metric at X to a defined more / less severe value from every all-X object (v3.1, v4.0); model independent.',
          'Trusted: severity orders from the specifications.', '5 C12, 4 E3'),
  'C13': ('strspace', 'bounded-exhaustive enumeration of strings against all four parsers + Vector() of swept objects against the other parsers',
          'No string of the E1 spaces (incl. the header matrix) is accepted by two parsers; Vector() of every swept object is rejected by the three other parsers.',
